@@ -72,6 +72,31 @@ fn data_count_cases() -> Vec<(&'static str, Vec<u8>)> {
     ]
 }
 
+/// bodies whose size field covers bytes AFTER the function's closing `end` (operators, a second `end`, stray bytes)
+fn after_end_cases() -> Vec<(String, Vec<u8>)> {
+    let mut out = vec![];
+    let tails: &[(&str, &[u8])] = &[
+        ("nop", &[0x01]), ("i32.const 7; drop; end", &[0x41, 0x07, 0x1a, 0x0b]), ("end", &[0x0b]), ("i32.const 7", &[0x41, 0x07]), ("drop", &[0x1a]),
+        ("unreachable", &[0x00]), ("block; end", &[0x02, 0x40, 0x0b]), ("br 0", &[0x0c, 0x00]), ("stray 0xff 0xff", &[0xff, 0xff]), ("call 0", &[0x10, 0x00]),
+        ("local.get 0", &[0x20, 0x00]), ("return", &[0x0f]), ("else", &[0x05]),
+    ];
+    for (tn, tail) in tails {
+        for (bn, body) in [("empty body", &[][..]), ("nop", &[0x01][..]), ("unreachable", &[0x00][..]), ("block end", &[0x02, 0x40, 0x0b][..])] {
+            let mut code: Vec<u8> = vec![0x00];           // no locals
+            code.extend_from_slice(body);
+            code.push(0x0b);                              // the function's closing end
+            code.extend_from_slice(tail);
+            let mut m: Vec<u8> = vec![0x00, 0x61, 0x73, 0x6d, 0x01, 0x00, 0x00, 0x00];
+            m.extend_from_slice(&[0x01, 0x04, 0x01, 0x60, 0x00, 0x00]);          // type section: () -> ()
+            m.extend_from_slice(&[0x03, 0x02, 0x01, 0x00]);                      // function section: one function of type 0
+            m.push(0x0a); m.push((code.len() + 2) as u8); m.push(0x01); m.push(code.len() as u8);
+            m.extend_from_slice(&code);
+            out.push((format!("body `{bn}` + closing end, then `{tn}` inside the body's size"), m));
+        }
+    }
+    out
+}
+
 fn nested(depth: usize) -> Vec<u8> {
     use wasm_encoder::*;
     let mut m = Module::new();
@@ -128,6 +153,7 @@ pub fn gate(args: &[String]) -> Result<JValue> {
         }
     }
     for (name, bytes) in data_count_cases() { judge("hand-built", name, &bytes, &mut failures); }
+    for (name, bytes) in after_end_cases() { judge("hand-built", &name, &bytes, &mut failures); }
     for (name, bytes) in unsupported() {
         for only_stable in [false, true] {
             checked += 1;
